@@ -26,7 +26,7 @@ ASSUMPTIONS = [
     'reads use get_session() and session(); values are compared by deep '
     'type-strict equality',
 ]
-BUDGET = {'quick': 2000, 'thorough': 64000}
+BUDGET = {'quick': 8000, 'thorough': 80000}
 FLOOR = {'quick': 150, 'thorough': 5000}
 NSS = ['/', '/a', '/b']
 KNOWN = set()
